@@ -260,7 +260,7 @@ func (p *specParser) ident() string {
 	return p.src[s:p.pos]
 }
 
-var callrefKinds = map[string]bool{"called": true, "ret": true, "ret0": true, "ret1": true, "ret2": true, "ret3": true, "arg": true, "recv": true}
+var callrefKinds = map[string]bool{"called": true, "ret": true, "ret0": true, "ret1": true, "ret2": true, "ret3": true, "arg": true, "recv": true, "retfirst": true, "retlast": true}
 
 func (p *specParser) parsePostfix() *SExpr {
 	e := p.parsePrimary()
